@@ -265,8 +265,7 @@ def defs_shard(args):
         lo = outl2[2]
         desc = 'set #%d (seed %d): %d messages' % (si, seed, len(accepted))
         import re
-        # known dumpString defect: an unquoted dumped field with two adjacent quotes inside (see known_findings.json)
-        sfx = ':raw-doubled-quote' if re.search(r'(^|,)[^",\n][^,\n]*""', dump1, re.M) else ''
+        sfx = ''      # (a dumpString defect with adjacent quotes used to be tagged here; it is repaired, see known_findings.json 'fixed')
         if lo[1] != '0':
             # known defect: a chain whose last part had no explicit length is dumped with the length of the part before it,
             # which then limits the payload on reload (see known_findings.json); recognised by the failing dump line
